@@ -100,7 +100,7 @@ CHECKS.update({
   note=PFX_NOTE, technique="contract-based deductive verification: loop invariants, safety/lock obligations, structural postcondition over ghost option counts", ref="DESIGN.md section 7 (C08, C09)"),
  "C09": dict(
   text=("Deductive proof on prefix.(*Handler).Handle of (a) the loop invariant `the list that will be recorded for the client grows by exactly one entry per successful allocation made while answering this IA_PD` (every delegated prefix is remembered, "
-        "however many the reply delegates), that this list is in the table under the client's key when the mutex is released, that each entry is the block the allocator returned, and (b) the assertion that a hint carrying no address is handled as an empty hint (it reaches the branch that hands the client its existing leases, instead of being compared with :: and sent on to a fresh allocation). "
+        "however many the reply delegates), that this list is in the table under the client's key when the mutex is released, that each entry is the block the allocator returned; (b) a hint that names no address and no length (no IAPrefix option, zero-length IAPrefix, ::/0) is served from the client's existing leases - invariants of the two re-offer loops over the satisfied/given-out bitsets and the keyed assertion that a new block is allocated for such a hint only when every lease the client holds has already been handed out in this IA_PD (so a repeated hint-less request consumes nothing); and (c) the assertion that a hint carrying no address is handled as an empty hint (it reaches the branch that hands the client its existing leases, instead of being compared with :: and sent on to a fresh allocation). "
         "The full statement `a renewal/repeat returns P with a lifetime not shorter than what remained` is NOT proved: it needs invariants over the two local bitsets and time arithmetic (DESIGN.md section 8)."),
   note=PFX_NOTE, technique="contract-based deductive verification: loop invariant over a ghost allocation counter, keyed assertion", ref="DESIGN.md section 7 (C08, C09)"),
  "C19": dict(
